@@ -607,7 +607,9 @@ def check(ctx):
                           ("P(Binomial(%d, %s) = %d)" % (n_, ktext(p_), m_), ref_binom(n_, p_, m_, m_)), ("P(Binomial(%d, %s) >= 0)" % (n_, ktext(p_)), 1.0)):
             r = run(text)
             ctx.count("binomial-subnormal:" + text, bucket="binomial-subnormal-term")
-            if r[0] != "ok" or not isinstance(r[1], (int, float)) or abs(float(r[1]) - exp) > TOL or not (0 <= float(r[1]) <= 1 + 1e-12):
+            # sums of a thousand and more float terms: "to within floating-point rounding" is 1e-9 here (the errors this family is
+            # after are of the order of the probability itself)
+            if r[0] != "ok" or not isinstance(r[1], (int, float)) or abs(float(r[1]) - exp) > 1e-9 or not (-1e-9 <= float(r[1]) <= 1 + 1e-9):
                 ctx.violation("binomial-float-range:" + text, text, "%.12g" % exp, repr(r), "ctx.real.value(%r)" % text)
 
     # ---------------- correspondence with the Lean model ----------------
